@@ -95,6 +95,13 @@ Opt(r, lz)   == [t |-> "opt", r |-> r, lazy |-> lz]
 Rep(r, n, m) == [t |-> "rep", r |-> r, n |-> n, m |-> m, lazy |-> FALSE]   \* {n,m}; m = INF for {n,}; n = m for {n}
 Grp(r)       == [t |-> "grp", r |-> r]                       \* ( r )
 Dup(r)       == [t |-> "dup", r |-> r]                       \* ( r ) \k  -- a group followed by a back-reference to it
+(* RefD(g, digs):  g capturing groups followed by a back-reference written as a RUN OF DIGITS
+     ( a ) ( b? ) ( ) ... ( ) ( b? ) \ d1 d2 .. dn
+   group 1 is (a), group 2 (if g >= 2) is (b?), group g (if g >= 3) is (b?), the groups between are empty ().
+   F&O 5.6.1: the group number is the LONGEST prefix of the digits that is the number of a group opened to
+   the left (\1 .. \g here); the remaining digits are ordinary characters.  Of the digits only 5 is an
+   alphabet member, so a left-over digit other than 5 matches no subject character. *)
+RefD(g, digs) == [t |-> "refd", g |-> g, digs |-> digs]
 (* class items *)
 IChr(c)      == [k |-> "c", c |-> c]
 IRng(lo, hi) == [k |-> "r", lo |-> lo, hi |-> hi]
@@ -142,6 +149,30 @@ AtomMatch(r, c) ==
 AtBol(s, i) == i = 0 \/ (Flag = "m" /\ i < Len(s) /\ s[i] = NL)
 AtEol(s, i) == i = Len(s) \/ (Flag = "m" /\ s[i + 1] = NL)
 
+(* ---- back-reference followed by digits ---- *)
+RECURSIVE DVal(_, _)
+DVal(digs, k) == IF k = 0 THEN 0 ELSE 10 * DVal(digs, k - 1) + digs[k]       \* value of the first k digits
+RefLen(g, digs) == CHOOSE k \in 1..Len(digs) :                                \* length of the group number
+                      /\ DVal(digs, k) >= 1 /\ DVal(digs, k) <= g
+                      /\ \A k2 \in (k + 1)..Len(digs) : DVal(digs, k2) > g
+RefValid(g, digs) == digs # <<>> /\ digs[1] >= 1 /\ digs[1] <= g
+RefdM(r, s, i, j) ==
+  \E e2 \in 0..(IF r.g >= 2 THEN 1 ELSE 0) : \E e3 \in 0..(IF r.g >= 3 THEN 1 ELSE 0) :
+     LET p1 == i + 1                    \* end of group 1
+         p2 == p1 + e2                  \* end of group 2
+         p3 == p2 + e3                  \* end of group g
+         n  == RefLen(r.g, r.digs)
+         k  == DVal(r.digs, n)
+         cs == IF k = 1 THEN i ELSE IF k = 2 THEN p1 ELSE p2                   \* captured span of group k
+         ce == IF k = 1 THEN p1 ELSE IF k = 2 THEN p2 ELSE IF k = r.g THEN p3 ELSE p2
+         q  == p3 + (ce - cs)           \* end of the copy
+         rest == Len(r.digs) - n        \* left-over literal digits
+     IN /\ q + rest = j
+        /\ CharEq(s[p1], LA)
+        /\ (e2 = 1 => CharEq(s[p2], LB)) /\ (e3 = 1 => CharEq(s[p3], LB))
+        /\ \A d \in 1..(ce - cs) : CharEq(s[cs + d], s[p3 + d])
+        /\ \A d \in 1..rest : r.digs[n + d] = 5 /\ s[q + d] = D5
+
 RECURSIVE M(_, _, _, _), RepM(_, _, _, _, _, _)
 M(r, s, i, j) ==
   CASE IsCharAtom(r) -> j = i + 1 /\ AtomMatch(r, s[j])
@@ -156,6 +187,7 @@ M(r, s, i, j) ==
     [] r.t = "opt"   -> i = j \/ M(r.r, s, i, j)
     [] r.t = "rep"   -> RepM(r.r, r.n, r.m, s, i, j)
     [] r.t = "grp"   -> M(r.r, s, i, j)
+    [] r.t = "refd"  -> RefdM(r, s, i, j)
     [] r.t = "dup"   -> \E k \in i..j : /\ M(r.r, s, i, k)
                                         /\ j - k = k - i
                                         /\ \A d \in 1..(k - i) : CharEq(s[i + d], s[k + d])
@@ -174,7 +206,7 @@ HasAnchor(r) == CASE r.t \in {"bol", "eol"} -> TRUE
                   [] r.t \in {"cat", "alt"} -> HasAnchor(r.l) \/ HasAnchor(r.r)
                   [] r.t \in {"star", "plus", "opt", "rep", "grp", "dup"} -> HasAnchor(r.r)
                   [] OTHER -> FALSE
-HasDup(r) == CASE r.t = "dup" -> TRUE
+HasDup(r) == CASE r.t \in {"dup", "refd"} -> TRUE
                [] r.t \in {"cat", "alt"} -> HasDup(r.l) \/ HasDup(r.r)
                [] r.t \in {"star", "plus", "opt", "rep", "grp"} -> HasDup(r.r)
                [] OTHER -> FALSE
